@@ -141,9 +141,12 @@ theorem C11_finding_failed_renewal :
       some [(false, 1, 101), (true, 0, 101)] := by
   decide
 
-/-- FINDING C11.aborted-send-burns-number.  `newRequestMessage` draws the number
-    before the write loop checks `ctx.Done()`: a request whose context is already
-    done consumes a number and writes nothing; the next chunk skips one. -/
+/-- FINDING C11.aborted-send-burns-number (narrowed by a repair: a context that is
+    already done is now detected before `newRequestMessage`, label `unlockInst`
+    straight after `lockInst`).  `newRequestMessage` still draws the number before
+    the message is encoded, signed and written: a request that fails after that
+    point (context ends in between, encode / sign / write error — label `abort`)
+    has consumed a number and writes nothing; the next chunk skips one. -/
 def abortTrace : List Label :=
   [.spawn, .spawn, .gate 0, .getActive 0, .pendAdd 0, .lockInst 0, .newMsg 0 1, .abort 0, .unlockInst 0, .pendDone 0,
    .gate 1, .getActive 1, .pendAdd 1, .lockInst 1, .newMsg 1 1, .write 1 102]
@@ -151,6 +154,15 @@ def abortTrace : List Label :=
 theorem C11_finding_aborted_send :
     (run? (init 100 1) abortTrace).map (fun s => s.wire.map (fun c => c.seq)) = some [102] ∧
     next 100 = 101 := by
+  decide
+
+/-- repaired part: a request whose context is already done draws no number —
+    the thread unlocks straight after locking and the wire stays consecutive -/
+theorem C11_cancelled_before_numbering_is_harmless :
+    (run? (init 100 1)
+      [.spawn, .spawn, .gate 0, .getActive 0, .pendAdd 0, .lockInst 0, .unlockInst 0, .pendDone 0,
+       .gate 1, .getActive 1, .pendAdd 1, .lockInst 1, .newMsg 1 1, .write 1 101]).map
+      (fun s => (s.wire.map (fun c => c.seq), decide (Consecutive s.base s.wire))) = some ([101], true) := by
   decide
 
 /-- hence the property does not hold at full strength -/
